@@ -53,6 +53,24 @@ def guards(ctx, rep, P):
     for b in bs[:1]:
         adds = [t for _, t in b.calls() if re.search(r"<impl u16>::checked_add$", callee_name(t))]
         rep.check(P + ".guard", "16-bit block size escape uses checked_add(1)", len(adds) == 1, loc_of(b), "", "65535 + 1 must be rejected, not wrapped to a zero block size")
+    # negation of an unfolded residual: the negated value is from_u32(x >> 1), i.e. at most 2^31 - 1
+    nn = 0
+    for b in F.bodies:
+        if b.promoted is not None:
+            continue
+        for bi, t in b.calls():
+            if (t["f"].get("path") or "") != "std::ops::Neg::neg" or not (b.file.endswith("decode.rs") or b.file.endswith("stream.rs")):
+                continue
+            nn += 1
+            good = False
+            for k, x in origins(b, t["a"][0]):
+                if k == "call" and re.search(r"SignedInteger::from_u32$", callee_name(x)):
+                    for kk, y in origins(b, x["a"][0]):
+                        if kk == "bin" and y["op"] == "Shr" and (op_int(y["b"]) or 0) >= 1:
+                            good = True
+            rep.check(P + ".guard", "%s: the residual magnitude that is negated is (folded >> 1), below 2^31" % (b.path if b.path.startswith("<") else strip_generics(b.path)), good, loc_of(b, t), "",
+                      "the value negated while unfolding a residual is no longer `folded >> 1`: 2^31 becomes i32::MIN and its negation panics with overflow checks")
+    rep.floor(P + ".guard", "residual negations", nn, 2)
 
 
 def run(ctx, rep):
